@@ -55,6 +55,44 @@ theorem release_eq (i : Inst) (s : State) :
   simp only [release, evalNat_eq]
   rfl
 
+theorem translate_eq (i : Inst) (s : State) (a' : Nat) :
+    translate i s a' =
+      if i.jssp then (a', s.nextOp a', findMa i.M (fun m => s.proc m (s.nextOp a')))
+      else (a' / i.M, s.nextOp (a' / i.M), a' % i.M) := by
+  simp [translate, Params.fjspJobIsDiv, Params.fjspMachineIsMod]
+
+theorem reward_eq (i : Inst) (s : State) :
+    reward i s = (match maxOver i.N (fun o => !i.pad o) s.finish with | some x => -x | none => 0) := by
+  simp only [reward, Params.fjspRewardMasksPadding, Params.fjspRewardIsMax, Bool.true_and, if_true]
+  rfl
+
+theorem isNoOp_eq (a : Nat) : isNoOp a = (a == 0) := by
+  simp only [isNoOp, Params.fjspActionShift, Params.fjspNoOpId]
+  cases h : (a == 0) with
+  | true => have : a = 0 := by simpa using h
+            subst this; rfl
+  | false =>
+    have : a ≠ 0 := by simpa using h
+    simp; omega
+
+theorem shifted_eq (a : Nat) : shifted a = a - 1 := by
+  simp only [shifted, Params.fjspActionShift]; omega
+
+theorem initFinish_eq : initFinish = 9999 := rfl
+
+/-- `_step` in the form the proofs use (wait = action 0, scheduling action `a` ↦ `a − 1`) -/
+theorem step_eq (i : Inst) (s : State) (a : Nat) :
+    step i s a =
+      if s.done then s
+      else if a = 0 then autoTransit i (fuel i) (transit i s)
+      else autoTransit i (fuel i) (makeStep i s (a - 1)) := by
+  simp only [step, isNoOp_eq, shifted_eq, beq_iff_eq]
+
+theorem noOpSel_eq (x : Row × Nat) : noOpSel x = ((x.2 == 0) && !x.1.2.done) := by
+  simp only [noOpSel, isNoOp_eq]
+theorem reqSel_eq (x : Row × Nat) : reqSel x = (!(x.2 == 0) && !x.1.2.done) := by
+  simp only [reqSel, isNoOp_eq]
+
 /-! ### generic counting lemmas -/
 
 theorem cnt_le_of_imp {n : Nat} {p q : Nat → Bool} (h : ∀ j, j < n → q j = true → p j = true) :
@@ -746,7 +784,7 @@ theorem sel_of_mask {i : Inst} (hwf : WF i) {s : State} (hinv : Inv i s) {a : Na
       apply hwf.uniq hjs _ hj _ hr.1 hr.2 _ _ hf.1 hmM _ hpos
       have h2 : 0 < s.proc (findMa i.M (fun m' => s.proc m' (s.nextOp (a - 1)))) (s.nextOp (a - 1)) := hf.2
       rw [hpm] at h2; exact h2
-    simp only [translate, hjs, if_true, heq]
+    simp only [translate_eq, hjs, if_true, heq]
     exact ⟨hsel, trivial⟩
   | false =>
     simp only [nAct, hjs, Bool.false_eq_true, if_false] at ha
@@ -759,7 +797,7 @@ theorem sel_of_mask {i : Inst} (hwf : WF i) {s : State} (hinv : Inv i s) {a : Na
       apply Nat.div_lt_of_lt_mul
       rw [Nat.mul_comm]; omega
     have hmM : (a - 1) % i.M < i.M := Nat.mod_lt _ hM
-    simp only [translate, hjs, Bool.false_eq_true, if_false]
+    simp only [translate_eq, hjs, Bool.false_eq_true, if_false]
     exact ⟨sel_of_avail hj hmM hm, trivial⟩
 
 /-! ### every mask-admitted step preserves the invariant and ends in a state with an open action -/
@@ -798,7 +836,7 @@ theorem cntBusy_le_fuel (i : Inst) (s : State) : cntBusy i s < fuel i := by
 theorem inv2_step {i : Inst} (hwf : WF i) {s : State} (h : Inv2 i s) {a : Nat} (ha : a < nAct i)
     (hm : mask i s a = true) : Inv2 i (step i s a) := by
   obtain ⟨hinv, hsc⟩ := h
-  unfold step
+  rw [step_eq]
   cases hd : s.done with
   | true => simp only [if_true]; exact ⟨hinv, hsc⟩
   | false =>
